@@ -10,7 +10,51 @@ COMMON_NOTE = ("Trusted: Coq 8.16.1 kernel, std++ 1.8.0, extraction (ExtrOcamlBa
                "(as an injective function), gob, protobuf, gRPC, database/sql, the Go runtime. The theorems are about the "
                "Gallina model; the model is tied to /repo's working tree on every run by the differential correspondence.")
 
+T_DIFF = "extracted-model differential correspondence (Go harness in a scratch copy of the working tree vs the OCaml extraction of the Gallina model)"
+
 CHECKS = {
+    "C01": dict(
+        text=("Theorem (Props/C01.v): for every dataset (< 2^32 rows, NUL-free column names), every expression with non-empty AND/OR, "
+              "every writer and open mode, run_query = the row-scan specification (count, or error iff a tested column occurs in no row); "
+              "proved by refinement writer -> store -> index (invariant over the row list) and structural induction on the expression, "
+              "hash idealised as injective. Tied to the code by building every dataset with IndexWriter.Flush, WriteToBoltDatabase and "
+              "BigIndexWriter, opening on demand and preloaded, and comparing counts with the extracted model, the extracted specification "
+              "and an independent Python row scan (boundary sizes 999..65537, hostile strings, one leaf query per stored value)."),
+        design="5/C01", technique="Coq proof (refinement + structural induction) + " + T_DIFF),
+    "C02": dict(
+        text=("Theorems (Props/C02.v): the nested group-by refinement computes spec_groups for any group-by list (repeated/unknown columns), "
+              "and spec_groups is characterised declaratively: per-group exact counts > 0, completeness, partition of rows, strictly "
+              "increasing lexicographic order (hence no duplicates), empty list -> no groups. Tied to the code by comparing ordered groups "
+              "(fields, counts, errors) for group-by lists of length 0..6 on all writer/open configurations."),
+        design="5/C02", technique="Coq proof (fold invariant over group-by columns, sortedness/uniqueness) + " + T_DIFF),
+    "C03": dict(
+        text=("Theorems (Props/C03.v): cache keys are injective on expressions; for EVERY cache satisfying a two-clause contract (hit returns "
+              "a value some expression with that key evaluates to; such puts keep the invariant) every result of every finite query history "
+              "equals the uncached execute; instances: no cache and the LRU cache with any capacity (0 included), overhead and size function. "
+              "Tied to the code by histories of 2..40 queries on one handle behind a recording cache (capacities 0..ample, on demand and "
+              "preloaded), compared with a fresh uncached handle and the model; cached/preloaded bitmaps re-serialised to detect mutation."),
+        design="5/C03", technique="Coq proof (logical invariant over cache states, key injectivity) + " + T_DIFF),
+    "C04": dict(
+        text=("Theorems: (Props/C04.v) evaluation as a resumption with one atomic cache operation per step returns, under EVERY schedule of any "
+              "number of threads, exactly the sequential uncached answers (logical relation on resumptions), and some schedule finishes; "
+              "(Conc.v + coq/obligations/ObC04.v) the lock skeletons regenerated from cache.go/query.go/index.go by tools/lockskel satisfy the "
+              "lockset discipline, which is proved to imply race freedom (conflicting accesses separated by release/acquire) and atomicity of "
+              "exclusive sections. Partial: data races inside roaring/bbolt/metric sinks are outside the skeletons; the -race stress "
+              "(2..16 goroutines, all cache configurations, LRUCache hammered directly) is supporting evidence and the search for a replay."),
+        design="5/C04", technique="Coq proof (logical relation over resumptions; lockset soundness) + source-to-skeleton translator + race-detector stress"),
+    "C05": dict(
+        text=("Theorems (Props/C05.v): AddRow ids are 0..n-1 for both writers; both writers produce the SAME store for every hash function; the "
+              "opened index has exactly the sorted columns/values added and one row per AddRow; membership of every (column,value) is exact "
+              "(every query = row scan). Tied to the code by AddRow return values, GetSchema before/after reopen, per-value probes, group-by on a "
+              "unique column, datasets on both sides of the 1000-value and 1000-row batches."),
+        design="5/C05", technique="Coq proof (simulation between writers, sorted-list uniqueness) + " + T_DIFF),
+    "C06": dict(
+        text=("Theorems (Props/C06.v): every crash state (empty database, any committed prefix of the flush transactions, any map iteration "
+              "order) of both writers is rejected by open_index or IS the complete index; opening never panics. Partial: atomicity of a bbolt "
+              "commit and SIGKILL inside a system call are trusted. Tied to the code by a verif-tag hook that snapshots the output file after "
+              "every commit; each snapshot must be rejected (lock released, file untouched) or answer schema and probes like the complete "
+              "index; plus a SIGKILL stream on `updog create`."),
+        design="5/C06", technique="Coq proof (invariant over commit prefixes) + commit-point fault enumeration via build-tag hook"),
     "C07": dict(
         text=("Theorems over the Gallina model of LRUCache for every operation list, capacity (0 included) and overhead: a hit "
               "returns the latest Put on that key; byte bound after every operation; residents are exactly the m most recently "
@@ -19,6 +63,57 @@ CHECKS = {
               "monitors evaluating the property text directly on the implementation."),
         design="5/C07",
         technique="Coq proof (invariant + history refinement over fold of steps) + extracted-model differential correspondence"),
+    "C08": dict(
+        text=("Theorem (Props/C08.v): any sequence of executions of one Query value on any indexes returns what fresh equal queries return and "
+              "leaves the visible fields unchanged; the pinned variant (scratch list kept) is refuted by a computed example. Tied to the code "
+              "by executing one *updog.Query 1..5 times on 1..3 indexes with different schemas and comparing with fresh queries and the model."),
+        design="5/C08", technique="Coq proof (induction over the execution sequence) + " + T_DIFF),
+    "C09": dict(
+        text=("Theorems (Props/C09.v): parse_query is total on every byte string (fuel proved sufficient); it returns a query iff the input "
+              "lexes without error to a sentence of the file-header grammar (inductive G_query), and the tree is the unique one the grammar "
+              "prescribes (n-ary chains, ^ tightest, parentheses only group); lexer errors reject; the lexer stream always ends with one "
+              "EOF/error item. Tied to the code by ~6000 (thorough 60000) strings per run: derivations with random white space, token "
+              "mutations, raw bytes, placeholder edge cases; accept/reject and tree compared; goroutine count must return to baseline. "
+              "Partial: goroutine stack exhaustion at ~10^6 nesting levels cannot be exhibited by the model."),
+        design="5/C09", technique="Coq proof (soundness/completeness of a fuelled recursive-descent parser w.r.t. an inductive grammar) + " + T_DIFF),
+    "C10": dict(
+        text=("Theorems (Props/C10.v): for every well-formed tree the formatted text is accepted, the re-parsed tree equals the original after "
+              "normalisation with the same group-by, re-parsed trees are well-formed, and the second-round text is a fixpoint; values survive "
+              "quoting for all byte strings. Tied to the code by comparing QueryToString / ParseQuery with the model byte for byte over small "
+              "trees exhaustively and random deep/wide trees with hostile values."),
+        design="5/C10", technique="Coq proof (lexer-on-spelled-tokens lemma, grammar derivation for formatted trees, normal forms) + " + T_DIFF),
+    "C11": dict(
+        text=("Theorems (Props/C11.v): bind succeeds iff enough arguments, and then is exactly the substitution relation (functional, shape "
+              "preserving, no placeholder left, extra arguments ignored); too few arguments is Err, never Panic; prepared path = direct path "
+              "when the count matches. Tied to the code by ReplacePlaceholders on random trees/arguments (template serialised before/after) "
+              "and by DB.Query / DB.Prepare+Stmt.Query with 1..5 executions against the model's rows."),
+        design="5/C11", technique="Coq proof (inductive substitution relation) + " + T_DIFF),
+    "C12": dict(
+        text=("Theorems (Props/C12.v): a statement returns rows iff bind and execute succeed, and the rows are rows_of the library result: "
+              "columns = group-by columns then count, TEXT.. then BIGINT, one row per group in library order, no rows for grouped-no-match, "
+              "one count row ungrouped; library error => error; never Panic. Tied to the code through database/sql with DSN options "
+              "{-, preload, lrucache+size, both, invalid size}: Columns, ColumnTypes and every scanned row compared."),
+        design="5/C12", technique="Coq proof (characterisation of rows_of / statement path) + " + T_DIFF),
+    "C15": dict(
+        text=("Theorems (Props/C15.v): a failed open leaves content and locks unchanged, a missing path stays missing, no panic/hang without a "
+              "writer, close releases and is idempotent, and for every open/close sequence the lock is held iff a live handle exists and the "
+              "file is unchanged. Partial: flock(2) itself is trusted. Tied to the code by files damaged through the bbolt API (every single "
+              "defect, pairs across schema/counter/bitmaps, zero-length, garbage, missing) x 4 option sets: outcome class vs model, lock "
+              "probe, file hash, double Close, reopen."),
+        design="5/C15", technique="Coq proof (state machine over files and locks) + " + T_DIFF + " + fault enumeration of damaged files"),
+    "C16": dict(
+        text=("Theorems (Props/C16.v, small): flush on an existing path is Err and leaves the file system unchanged; the read path never "
+              "changes file contents. The assurance comes mostly from the tie: pre-existing contents {empty, valid index, random, read-only, "
+              "short} x both create paths, and open/query/GetSchema/close rounds under 4 option sets, SHA-256 before/after."),
+        design="5/C16", technique="Coq proof (file-system model) + file-hash differential on the implementation"),
+    "C17": dict(
+        text=("Theorems (Props/C17.v): for every well-formed driver-level operation list no operation panics/hangs, every query is evaluated "
+              "on the index of the file its handle was opened on, and when the last handle on a file is closed the file is released and the "
+              "cache entry gone (exact reference counting invariant); pinned variant refuted. (ObC17.v) the connection cache is accessed only "
+              "under the driver mutex, taken at most once per Open/Close (skeletons regenerated from driver.go), so every schedule is an "
+              "operation list. Tied to the code by random well-formed histories vs the extracted state machine (fresh process each), "
+              "database/sql scenarios with pools 1..4, 16 goroutines' first use, lock probes. Partial: database/sql's pool policy is trusted."),
+        design="5/C17", technique="Coq proof (state-machine invariant with exact counting; lockset soundness) + source-to-skeleton translator + " + T_DIFF),
 }
 
 PENDING = {}
@@ -66,7 +161,7 @@ def main():
     print("MANIFEST.json: %d checks, %d not_applicable" % (len(checks), len(na)))
 
 
-HOOK_COMMITS = []
+HOOK_COMMITS = ["9b80845"]
 
 if __name__ == "__main__":
     main()
